@@ -266,7 +266,7 @@ Section ProofsB.
 
   Theorem closed_forever : forall ops1 ops2, closed (run ops1) = true -> run (ops1 ++ ops2) = run ops1.
   Proof.
-    intros ops1 ops2 Hc. unfold Model.run. rewrite fold_left_app. fold (Model.run L content ops1).
+    intros ops1 ops2 Hc. unfold Model.run. rewrite fold_left_app. fold (Model.run L content enc ks ops1).
     induction ops2 as [|o ops2 IH]; [reflexivity|]. cbn [fold_left]. rewrite closed_inert by exact Hc. exact IH.
   Qed.
 End ProofsB.
